@@ -483,6 +483,18 @@ def run(R, P="C09"):
             if len(rs_) == 1 and isinstance(rs_[0], ast.BoolOp):
                 R.check(isinstance(rs_[0].op, ast.Or), P + ".CLASSIFY", fq + ":any", R.site(f), "%s is true when any marker is present" % f.name,
                         "%s requires all markers at once: a function offering only .asynq (every @asynq() function) is no longer recognised as async" % f.name)
+    # the helpers answer for the object they are handed, each time: a memoising decorator keys its table on the argument's
+    # __eq__/__hash__, and bound async methods compare equal when their instances do - two distinct instances that compare equal
+    # would be handed each other's bound .asynq (the body runs with the wrong self), and an unhashable instance makes the helper raise
+    for fq in ("decorators.is_pure_async_fn", "decorators.is_async_fn", "decorators.has_async_fn", "decorators.get_async_fn", "decorators.get_async_or_sync_fn"):
+        f = repo.fn(fq)
+        decs = [q.src(d) for d in f.node.decorator_list]
+        memo = [d for d in decs if any(w in d.lower() for w in ("cache", "memo", "lru"))]
+        R.need(len(memo) == len(decs), "idiom: %s carries a decorator that is not modelled (%s)" % (fq, [d for d in decs if d not in memo]))
+        R.check(not memo, P + ".CLASSIFY", fq + ":undecorated", R.site(f), "%s computes its answer from the object it is given on every call" % f.name,
+                "%s is memoised (@%s): the table is keyed by the argument's __eq__/__hash__, so equal-comparing bound methods of different instances share "
+                "one answer - get_async_fn(b.m) returns a.m's .asynq and the body runs with the wrong self - and an unhashable callable makes the helper raise"
+                % (f.name, memo[0] if memo else ""))
     for fq, want in (("decorators.get_async_fn", ["fn.asynq", "getattr(fn, 'async')", "fn", "sync_to_async_fn_wrapper", "None"]),
                      ("decorators.get_async_or_sync_fn", ["fn.asynq", "getattr(fn, 'async')", "fn"])):
         f = repo.fn(fq)
